@@ -275,48 +275,3 @@ fn c07__check_collect__trigger_iff_limit_reached() {
     kani::cover!(true); // vacuity guard: the end of the harness is reachable under its assumptions
 }
 
-// ---------------------------------------------------------------- C05 retry (DESIGN 2/C05 decision rule): bounded run of the real
-// mark + sweep on a two-object heap.  NOT part of any claimed property unless it verifies within the budget.
-fn count_objects(gc: &Gc) -> usize {
-    let mut n = 0;
-    let mut cur = &gc.values;
-    while let Some(p) = cur {
-        n += 1;
-        cur = &p.next;
-    }
-    n
-}
-
-#[kani::proof]
-#[kani::unwind(4)]
-#[kani::stub(Gc::get_type_info, stub_get_type_info)]
-#[kani::stub(alloc::fmt::format, stub_fmt_format)]
-fn c05__sweep__two_objects() {
-    let mut gc = Gc::new(Generation::default(), usize::MAX);
-    let a: GcPtr<u8> = unsafe { gc.alloc_ignore_limit(Move(1u8)).unrooted() };
-    let b: GcPtr<u8> = unsafe { gc.alloc_ignore_limit(Move(2u8)).unrooted() };
-    let total = gc.allocated_memory;
-    let keep_a: bool = kani::any();
-    let keep_b: bool = kani::any();
-    if keep_a {
-        gc.mark(&a);
-    }
-    if keep_b {
-        gc.mark(&b);
-    }
-    unsafe { gc.sweep() };
-    let survivors = keep_a as usize + keep_b as usize;
-    assert!(count_objects(&gc) == survivors);
-    assert!(gc.allocated_memory == survivors * (total / 2));
-    if keep_a {
-        assert!(*a == 1 && !a.header().marked.get());
-    }
-    if keep_b {
-        assert!(*b == 2 && !b.header().marked.get());
-    }
-    mem::forget(gc);
-}
-
-fn stub_fmt_format(_args: ::core::fmt::Arguments<'_>) -> ::std::string::String {
-    ::std::string::String::new()
-}
